@@ -19,8 +19,8 @@ type RKnobs struct {
 	BarrierYield bool `json:"barrier_yield"`
 	MaxSteps     int  `json:"max_steps"`
 	ClockWeight  int  `json:"clock_w"`
-	DrainQueueW  int  `json:"drainq_w"`            // weight of draining an output queue
-	EventCap     int  `json:"event_cap,omitempty"` // capacity of the API event queue (0 = the shipped 10), hook H18
+	DrainQueueW  int  `json:"drainq_w"`                // weight of draining an output queue
+	EventCap     int  `json:"event_cap,omitempty"`     // capacity of the API event queue (0 = the shipped 10), hook H18
 	EventDrainW  int  `json:"event_drain_w,omitempty"` // weight of receiving an API event (0 = 6): a small value is a server whose event loop is busy
 	// ConcurrentStarts (C16, equal channel counts only): several StartReadCollection calls may be in flight at once
 	ConcurrentStarts bool `json:"concurrent_starts,omitempty"`
